@@ -2,6 +2,7 @@
 //! 
 //! Implements XGROUP, XREADGROUP, XACK, XPENDING, XCLAIM, and XAUTOCLAIM commands
 
+use crate::storage::commands::RedisInt;
 use crate::error::Result;
 use crate::protocol::RespFrame;
 use crate::storage::{StorageEngine, GetResult};
@@ -577,7 +578,7 @@ pub fn handle_xreadgroup(storage: &Arc<StorageEngine>, db: usize, parts: &[RespF
                 if arg == "COUNT" && i + 1 < parts.len() {
                     count = match &parts[i + 1] {
                         RespFrame::BulkString(Some(bytes)) => {
-                            String::from_utf8_lossy(bytes).parse::<usize>().ok()
+                            String::from_utf8_lossy(bytes).parse_redis::<usize>().ok()
                         }
                         _ => None,
                     };
@@ -585,7 +586,7 @@ pub fn handle_xreadgroup(storage: &Arc<StorageEngine>, db: usize, parts: &[RespF
                 } else if arg == "BLOCK" && i + 1 < parts.len() {
                     block_ms = match &parts[i + 1] {
                         RespFrame::BulkString(Some(bytes)) => {
-                            String::from_utf8_lossy(bytes).parse::<u64>().ok()
+                            String::from_utf8_lossy(bytes).parse_redis::<u64>().ok()
                         }
                         _ => None,
                     };
@@ -822,7 +823,7 @@ pub fn handle_xpending(storage: &Arc<StorageEngine>, db: usize, parts: &[RespFra
         
         let count = match &parts[5] {
             RespFrame::BulkString(Some(bytes)) => {
-                match String::from_utf8_lossy(bytes).parse::<usize>() {
+                match String::from_utf8_lossy(bytes).parse_redis::<usize>() {
                     Ok(n) => n,
                     Err(_) => return Ok(RespFrame::error("ERR value is not an integer")),
                 }
@@ -895,7 +896,7 @@ pub fn handle_xclaim(storage: &Arc<StorageEngine>, db: usize, parts: &[RespFrame
     
     let min_idle_ms = match &parts[4] {
         RespFrame::BulkString(Some(bytes)) => {
-            match String::from_utf8_lossy(bytes).parse::<u64>() {
+            match String::from_utf8_lossy(bytes).parse_redis::<u64>() {
                 Ok(n) => n,
                 Err(_) => return Ok(RespFrame::error("ERR Invalid min-idle-time")),
             }
@@ -1008,7 +1009,7 @@ pub fn handle_xautoclaim(storage: &Arc<StorageEngine>, db: usize, parts: &[RespF
     
     let min_idle_ms = match &parts[4] {
         RespFrame::BulkString(Some(bytes)) => {
-            match String::from_utf8_lossy(bytes).parse::<u64>() {
+            match String::from_utf8_lossy(bytes).parse_redis::<u64>() {
                 Ok(n) => n,
                 Err(_) => return Ok(RespFrame::error("ERR Invalid min-idle-time")),
             }
